@@ -1,7 +1,7 @@
 import NgoVerif.Sexp
 import NgoVerif.Syntax
 import NgoVerif.Proofs.C09link
-import NgoVerif.Proofs.C11sem
+import NgoVerif.Proofs.C11check
 /-!
 # Driver ops that evaluate the *side conditions of the end-to-end theorems* on what the real passes did
 
@@ -11,7 +11,9 @@ import NgoVerif.Proofs.C11sem
   such literal).
 * `(sem_unused_cond <prog> "n" k)` → `(ok <every statement stmOk> <Unused n k prog>)`: the hypothesis of
   `C09_removal_sound/complete` for the program `unused` removed the rules of `n/k` from.
-Equality of body literals is the derived structural `==` of the AST mirror.
+The checks are the executable definitions `Proofs.C11check.symCheck` and `Proofs.C09sem.unusedCheck`, whose answer `true`
+is proved to imply the theorems' hypotheses (`symCheck_sound`, `unusedCheck_sound`); equality of literals is the proved
+test of `Sem/DecEq.lean`.
 -/
 namespace NgoVerif
 open Sexp
@@ -19,39 +21,9 @@ open Sexp
 namespace SemCond
 open Proofs.C11sem Proofs.C09sem Proofs.C09link
 
-/-- the involution that exchanges the two members of each pair -/
-def swaps (ps : List (String × String)) : String → String := fun v =>
-  match ps.find? (fun p => p.1 == v || p.2 == v) with
-  | some p => if p.1 == v then p.2 else p.1
-  | none => v
-
-/-- the pairs are disjoint and non-trivial: `swaps` is an involution -/
-def pairsOk (ps : List (String × String)) : Bool :=
-  let vs := ps.flatMap fun p => [p.1, p.2]
-  vs.length == (vs.foldl (fun acc v => if acc.contains v then acc else v :: acc) []).length
-
-def flipNe : BLit → Option BLit
-  | .lit (.pos, .cmp (.var U) [⟨.ne, .var V⟩]) => some (.lit (.pos, .cmp (.var V) [⟨.ne, .var U⟩]))
-  | _ => none
-
-/-- the decidable form of `Symmetric.body` -/
-def symBody (σ : String → String) (b : List BLit) : Bool :=
-  b.all fun l =>
-    let r := Sem.renameBLit σ l
-    b.contains r || (match flipNe r with | some f => b.contains f | none => false)
-
-def symGlobals (σ : String → String) (X Y : String) (h : Head) (b : List BLit) : Bool :=
-  let L := Sem.stdHeadGlobals h ++ Sem.bodyGlobals (b ++ [cmpBLit X .ne Y])
-  L.all fun v => L.contains (σ v)
-
-def symHead (σ : String → String) (h : Head) : Bool := h.vars.all fun v => σ v == v
-
 def removeFirst (x : BLit) : List BLit → Option (List BLit)
   | [] => none
-  | y :: ys => if y == x then some ys else (removeFirst x ys).map (y :: ·)
-
-def unusedCond (n : String) (k : Nat) (prg : Prog) : Bool :=
-  prg.all fun s => defRule n k s || stmAvoids (Sem.predSig n k) s
+  | y :: ys => if blitEqb y x then some ys else (removeFirst x ys).map (y :: ·)
 
 end SemCond
 
@@ -61,14 +33,16 @@ def handleSem : Sexp → Option Sexp
       | some (.rule _ _ h b), some ((X, Y) :: more) =>
         match SemCond.removeFirst (Proofs.C11sem.cmpBLit X .ne Y) b with
         | some b' =>
-          let σ := SemCond.swaps ((X, Y) :: more)
-          .list [.atom "ok", ofBool (SemCond.pairsOk ((X, Y) :: more)), ofBool (SemCond.symBody σ b'),
-                 ofBool (SemCond.symGlobals σ X Y h b'), ofBool (SemCond.symHead σ h)]
+          let ps := (X, Y) :: more
+          let σ := Proofs.C11check.swaps ps
+          -- the conjunction of the four answers is `Proofs.C11check.symCheck ps X Y h b'` (sound: `symCheck_sound`)
+          .list [.atom "ok", ofBool (Proofs.C11check.involOk ps && σ X == Y), ofBool (Proofs.C11check.symBody σ b'),
+                 ofBool (Proofs.C11check.symGlobals σ X Y h b'), ofBool (Proofs.C11check.symHead σ h)]
         | none => .list [.atom "unsupported", .str "no literal X != Y"]
       | _, _ => .list [.atom "unsupported", .str "rule or pairs"]
   | .list [.atom "sem_unused_cond", p, .str n, k] =>
     some <| match Prog.ofSexp p, k.toNat? with
-      | some prg, some k => .list [.atom "ok", ofBool (prg.all fun s => Proofs.C09link.stmOk s), ofBool (SemCond.unusedCond n k prg)]
+      | some prg, some k => .list [.atom "ok", ofBool (prg.all fun s => Proofs.C09link.stmOk s), ofBool (Proofs.C09sem.unusedCheck n k prg)]
       | _, _ => .list [.atom "unsupported", .str "program"]
   | _ => none
 
